@@ -159,6 +159,19 @@ fn gen_one(seed: u64, run: u64, tier: Tier, bk: Bk, op: &str, rep: u64) -> Plan 
     // fault-free baseline first
     let r = b.healthy_rng();
     one(&mut b, r);
+    // P-384 scalars are drawn by rejection: candidates that are zero or not below the group order are
+    // discarded and drawn again (the scripted first draws below are such candidates; the next draw is healthy)
+    if bk.family() == 3 && matches!(op, "gen-secret" | "pke") {
+        let n_hex = hex::encode(crate::curves::p384_n().to_bytes_be());
+        let n_plus = {
+            let v = crate::curves::p384_n() + num_bigint_dig::BigUint::from(1u32 + b.rng.below(1 << 30) as u32);
+            hex::encode(v.to_bytes_be())
+        };
+        for pat in [vec!["ff".to_string()], vec![n_hex.clone()], vec![n_plus.clone()], vec!["00".to_string()], vec!["ff".to_string(), n_hex.clone(), "00".to_string()]] {
+            let s = b.ev_seed();
+            one(&mut b, RngSpec::Script { draws: pat, seed: s });
+        }
+    }
     for k in 0..max_draws {
         for partial in [0u32, 1, 7, 1000] {
             let s = b.ev_seed();
